@@ -62,3 +62,14 @@ func (v VerifChannel) SchedTakeSequenceNumber() uint32 {
 	defer i.Unlock()
 	return i.nextSequenceNumber()
 }
+
+// SchedActiveLifetime returns the lifetime the channel uses for its active security token.
+func (v VerifChannel) SchedActiveLifetime() time.Duration {
+	i, err := v.S.getActiveChannelInstance()
+	if err != nil {
+		return 0
+	}
+	i.Lock()
+	defer i.Unlock()
+	return i.revisedLifetime
+}
